@@ -2515,6 +2515,73 @@ fn round_hookblocking(seed: u64, hb: &Heartbeat, tot: &Mutex<Tot>, prop: &str) {
 }
 
 // ---------------------------------------------------------------------------------------------
+// bigmsg: a message that is 32 KiB inline goes through every send flavour, from plain threads and from tasks. All of them move
+// the value through whatever stacks the implementation uses; the blocking variants must cope like tell/ask do (C17). A stack
+// overflow aborts the process - the orchestrator reports a harness process that dies with that message as a violation.
+// ---------------------------------------------------------------------------------------------
+fn round_bigmsg(seed: u64, tot: &Mutex<Tot>, prop: &str) {
+    use ab::*;
+    let rt = tokio::runtime::Builder::new_multi_thread().worker_threads(2).enable_time().build().unwrap();
+    let handled = Arc::new(AtomicU64::new(0));
+    let (a, jh) = {
+        let _g = rt.enter();
+        rsactor::spawn::<A>(Args { handled: handled.clone(), start_ms: 0, ticks: false })
+    };
+    let fill = (seed % 200) as u8 + 1;
+    let want = fill as u64 * 32768;
+    let mut bad = vec![];
+    let a2 = a.clone();
+    let r = std::thread::spawn(move || {
+        let mut bad = vec![];
+        let mk = || Big([fill; 32768]);
+        if a2.blocking_tell(mk(), None).is_err() {
+            bad.push("blocking_tell(None)".to_string());
+        }
+        if a2.blocking_tell(mk(), Some(Duration::from_secs(10))).is_err() {
+            bad.push("blocking_tell(Some(10 s))".to_string());
+        }
+        match a2.blocking_ask(mk(), None) {
+            Ok(v) if v == want => {}
+            other => bad.push(format!("blocking_ask(None) -> {other:?}")),
+        }
+        match a2.blocking_ask(mk(), Some(Duration::from_secs(10))) {
+            Ok(v) if v == want => {}
+            other => bad.push(format!("blocking_ask(Some(10 s)) -> {other:?}")),
+        }
+        bad
+    })
+    .join();
+    match r {
+        Ok(b) => bad.extend(b),
+        Err(_) => bad.push("the calling thread panicked".to_string()),
+    }
+    rt.block_on(async {
+        if a.tell(Big([fill; 32768])).await.is_err() {
+            bad.push("tell".to_string());
+        }
+        match a.ask_with_timeout(Big([fill; 32768]), Duration::from_secs(10)).await {
+            Ok(v) if v == want => {}
+            other => bad.push(format!("ask_with_timeout -> {other:?}")),
+        }
+        let _ = a.stop().await;
+        let _ = tokio::time::timeout(Duration::from_secs(10), jh).await;
+    });
+    rt.shutdown_timeout(Duration::from_secs(2));
+    let n = handled.load(Ordering::SeqCst);
+    let mut t = tot.lock().unwrap();
+    t.rounds += 1;
+    t.hashes.insert(fill as u64);
+    *t.nontrivial.entry("C17".into()).or_default() += 1;
+    *t.obl.entry("C17.same_rules").or_default() += 6;
+    if n != 6 && bad.is_empty() {
+        bad.push(format!("6 sends of a 32 KiB message all reported success but {n} were handled"));
+    }
+    if !bad.is_empty() && (prop == "all" || prop == "C17") {
+        t.viol.push(("C17.same_rules".into(), format!("[bigmsg] a message that is 32 KiB inline, sent to an idle actor: {:?}", bad), seed, "bigmsg".into()));
+    }
+}
+
+// ---------------------------------------------------------------------------------------------
 // abort: the actor's JoinHandle is resolved by `JoinHandle::abort()` while strong references exist.
 // Whatever made the handle resolve, "is_alive() is false once its JoinHandle has resolved, after which
 // every send fails" (C11) and "every ask still pending on it and every later ask returns an Err" (C03).
@@ -2549,6 +2616,15 @@ mod ab {
             } else {
                 Ok(false)
             }
+        }
+    }
+    /// a message that is large inline (32 KiB on the stack of whoever moves it)
+    pub struct Big(pub [u8; 32768]);
+    impl Message<Big> for A {
+        type Reply = u64;
+        async fn handle(&mut self, b: Big, _: &ActorRef<Self>) -> u64 {
+            self.handled.fetch_add(1, Ordering::SeqCst);
+            b.0.iter().map(|x| *x as u64).sum()
         }
     }
     /// a message with a destructor that itself uses the (timed) blocking API: a lease that reports to a collector when dropped
@@ -3393,6 +3469,16 @@ pub fn cmd_mt(a: &Args) -> i32 {
                     }
                 }
             }
+            "bigmsg" => {
+                let mut n = 0u64;
+                while tp.elapsed() < per_profile && n < 50 {
+                    n += 1;
+                    round_bigmsg(mix(base, ((pi as u64) << 56) ^ n), &tot, &prop);
+                    if !tot.lock().unwrap().viol.is_empty() {
+                        break;
+                    }
+                }
+            }
             "abort" => {
                 let mut n = 0u64;
                 while tp.elapsed() < per_profile {
@@ -3459,7 +3545,7 @@ pub fn cmd_mt(a: &Args) -> i32 {
     #[cfg(feature = "f_testutils")]
     {
         let d = rsactor::dead_letter_count() - dl0;
-        if !tainted.load(Ordering::Relaxed) && profiles.iter().all(|p| p != "spawnstorm" && p != "tightrace" && p != "starve" && p != "mutualask" && p != "abort" && p != "reentrant" && p != "dropspin" && p != "metricsrace" && p != "undriven" && p != "dlrace" && p != "dropsend" && p != "lastslot" && p != "hookblocking") {
+        if !tainted.load(Ordering::Relaxed) && profiles.iter().all(|p| p != "spawnstorm" && p != "tightrace" && p != "starve" && p != "mutualask" && p != "abort" && p != "reentrant" && p != "dropspin" && p != "metricsrace" && p != "undriven" && p != "dlrace" && p != "dropsend" && p != "lastslot" && p != "hookblocking" && p != "bigmsg") {
             *t.obl.entry("C13.counter").or_default() += 1;
             t.extra.insert("dead_letter_count_delta".into(), d);
             let fl = t.failures;
